@@ -192,12 +192,13 @@ class Run:
         if a["kind"] == "msg":
             self.prot.datagram_received(a["data"], SOURCES[a["src"]], a["mc"])
         elif a["kind"] == "lost":
-            self.prot.connection_lost(None)
+            # asyncio reports a closed transport with None, a failed one with the exception
+            self.prot.connection_lost(None if self.executed % 2 else ConnectionResetError("transport failed"))
         elif a["kind"] == "start":
             # the application registers its listeners, does other set-up while offers already arrive, and only then starts
             # discovery (or stops and starts it again): what is known and what listeners were told stays as it is
-            if getattr(self.prot.discovery, "task", None) is not None:
-                self.prot.discovery.stop()
+            if getattr(self.prot.discovery, "task", None) is not None or self.executed % 2:
+                self.prot.discovery.stop()  # (also on a discovery that was never started: a no-op)
             self.prot.discovery.start()
         elif a["kind"] == "crowd":
             # a busy segment: very many other nodes are heard (each asks for a service nobody here offers)
@@ -342,7 +343,7 @@ class Run:
         for pos, (t, rank, a) in enumerate(self.script):
             h.at(t, self.do, pos, a, rank=rank, hops=a.get("hops", 0))
         h.run(horizon)
-        problems = h.problems()
+        problems = h.problems(allowed_logged=("ParseError", "IncompleteReadError", "ConnectionResetError"))  # the injected transport failure is logged with its traceback
         h.close()
         return problems
 
